@@ -30,6 +30,9 @@ type c05case struct {
 	// then re-prefixed to their first column only, and then Op is applied: rows that agree in the
 	// first column were spread over the shards by the earlier placement and must be brought together.
 	Narrow string `json:"narrow,omitempty"`
+	// ViaResult (with Narrow): the first redistribution is its own invocation; its Result is the
+	// argument of a second invocation that re-prefixes it and applies Op
+	ViaResult bool `json:"via_result,omitempty"`
 }
 
 // c05assign accumulates key -> shard over all runs of this process.
@@ -147,10 +150,46 @@ func runC05case(t *vf.T, pool *sessionPool, c c05case) {
 		t.Inconclusive("spec: " + err.Error())
 		return
 	}
-	out := runSpec(ls, sp, [2]bigslice.Slice{}, true, 300*time.Second)
+	args := [2]bigslice.Slice{}
+	if c.Narrow != "" && c.ViaResult {
+		// split after the first redistribution (nodes 0..3: keys, map, prefixed(2), narrow op)
+		base := Spec{Run: sp.Run + "-base", Nodes: append([]PNode{}, sp.Nodes[:4]...)}
+		defer probes.Delete(base.Run)
+		_, brels, berr := evalSpec(&base, nil)
+		if berr != nil {
+			t.Inconclusive("spec: " + berr.Error())
+			return
+		}
+		bo := runSpec(ls, base, [2]bigslice.Slice{}, false, 300*time.Second)
+		if bo.TimedOut || bo.RunErr != nil || bo.Panic != nil {
+			t.Inconclusive(fmt.Sprintf("base run: %v %v timeout=%v", bo.RunErr, bo.Panic, bo.TimedOut))
+			pool.drop(c.Conf)
+			return
+		}
+		defer bo.Res.Discard(bgctx)
+		args[0] = bo.Res
+		rest := append([]PNode{{Op: "arg", Arg: 0}}, sp.Nodes[4:]...)
+		for i := 1; i < len(rest); i++ {
+			in := make([]int, len(rest[i].In))
+			for j, x := range rest[i].In {
+				in[j] = x - 3
+			}
+			rest[i].In = in
+		}
+		sp = Spec{Run: sp.Run, Nodes: rest}
+		want, rels, err = evalSpec(&sp, []*rel{brels[3], brels[3]})
+		if err != nil {
+			t.Inconclusive("spec: " + err.Error())
+			return
+		}
+	}
+	out := runSpec(ls, sp, args, true, 300*time.Second)
 	sigBase := fmt.Sprintf("op=%s key=%s", c.Op, strings.Join(c.Kinds, "+"))
 	if c.Narrow != "" {
 		sigBase = fmt.Sprintf("op=%s after %s on a wider prefix key=%s", c.Op, c.Narrow, strings.Join(c.Kinds, "+"))
+		if c.ViaResult {
+			sigBase += " (result of an earlier invocation)"
+		}
 	}
 	switch {
 	case out.TimedOut:
@@ -388,6 +427,9 @@ func runC05(r *vf.Runner) {
 							continue
 						}
 						run(c05case{Conf: conf, Kinds: ks, Op: op, Narrow: pre, Producers: n, NShard: n, KeySet: "random", NKeys: 150, Dup: 1, Seed: uint64(n + i)})
+						if op != "fold" && (!r.Quick() || n == 3) {
+							run(c05case{Conf: conf, Kinds: ks, Op: op, Narrow: pre, ViaResult: true, Producers: n, NShard: n, KeySet: "random", NKeys: 150, Dup: 1, Seed: uint64(n + i)})
+						}
 					}
 				}
 			}
